@@ -127,6 +127,15 @@ CLAIMED["C08"] = _entry(
     "static analysis: guard dominance on the CFG, sibling body comparison, return-value provenance, def-use routing of the key to the focus expression, ABC well-foundedness",
 )
 
+CLAIMED["C11"] = _entry(
+    "Static analysis decides the configuration discipline of the width arithmetic: every width function still branches on the text types and byte-encoding modes it must, with mode literals "
+    "that set_byte_encoding stores; literals compared with the encoding *name* are canonical spellings; there is a single source of character widths (get_width is a pure wrapper of "
+    "get_char_width); set_encoding defines all encoding state on every path; the byte-walking loops make progress; double-byte second-half tests are not dead. Width values, additivity and "
+    "offset agreement for all code points are exhaustive value questions and are not decided (level 'other').",
+    "DESIGN.md section 3, C11; engines E12 (COVER), E9 (TAB), E8, E6, E10",
+    "static analysis: exhaustiveness of mode tests with CFG dominance, literal agreement against the codec registry, wrapper identity, all-paths-assign, loop progress, contradiction (dead comparison) rule",
+)
+
 _PENDING = "check not built yet in this session (planned per DESIGN.md section 3); listed here until its static rules exist and pass on the pinned tree"
 NOT_APPLICABLE = {pid: _PENDING for pid in [f"C{i:02d}" for i in range(1, 21)] if pid not in CLAIMED and pid != "C07"}
 NOT_APPLICABLE["C07"] = (
